@@ -25,7 +25,7 @@ Next ==
   \/ \E o \in StartOpts : life[1] = "ns" /\ Start(1, o)
   \/ \E o \in StartOpts : life[2] = "ns" /\ ~IsFork(o) /\ (MaxSrc >= 3 \/ o.rerr = 0) /\ Start(2, o)   \* (quick tier: the second child has no stderr pipe)
   \/ npolls < MaxPolls /\ \E s \in Srcs, t \in Timeouts \cup {INF} : Poll(s, t)
-  \/ \E h \in {1, 2}, t \in {0, DEADLINE} : life[h] = "run" /\ Wait(h, t)
+  \/ \E h \in {1, 2}, t \in {0, 3, DEADLINE} : life[h] = "run" /\ Wait(h, t)   \* (3: a finite timeout beyond the deadline - the deadline does not cut it short)
   \/ \E h \in {1, 2} : life[h] = "run" /\ pend[h].o /\ Close(h, S_OUT)
   \/ \E h \in {1, 2} : life[h] = "run" /\ buf[h].o # <<>> /\ Read(h, S_OUT, 2, 0)
   \/ Resume
